@@ -59,6 +59,13 @@ def signatureCacheFact : Bool :=
      "key_batch.go CheckCache / func addToCache => SignatureCache.Set(key, []byte{0})",
      "secp256k1.go SECP256K1PublicKey.VerifyBytes / if valid = ethCrypto.VerifySignature(s.Bytes(), Hash(msg), sig); valid => addToCache()"]
 
+/-- `ValidateProposal` registers the restore of the governance-proposal mode (`defer
+resetProposalConfig()`) directly after the statement that switches both state machines into the strict
+mode: no return can lie between the switch and the registration -/
+def proposalModeRestoredFact : Bool :=
+  validateProposalModeScope ==
+    ["resetProposalConfig := c.SetFSMInConsensusModeForProposals()", "defer resetProposalConfig()"]
+
 /-- the signature-cache mechanism of the source tree -/
 def sigCacheCfgOfFacts : Canopy.SigCache.Cfg := ⟨signatureCacheFact⟩
 
